@@ -662,7 +662,8 @@ def _d8_cancellation(ctx, fields):
                           if any(gives_back_call(c, nm) for c in U.calls(h))]:
                     closes = [c for c in U.calls(h) if U.attr_name(c) == 'close' and norm_text(c.func.value) == nm]
                     rel = [c for c in U.calls(h) if gives_back_call(c, nm)]
-                    okc = bool(closes) and min(c.lineno for c in closes) <= min(c.lineno for c in rel)
+                    # a deferred give-back (no_wait_release) runs after the handler: closing right after scheduling it is as good
+                    okc = bool(closes) and (min(c.lineno for c in closes) <= min(c.lineno for c in rel) or all(U.attr_name(c) == 'no_wait_release' for c in rel))
                     ck.expect(okc, 'C12-D8', m.qual, '%s is closed before it is given back after a failed set-up' % nm,
                               'the failure handler returns the connection to the pool without closing it: the pool hands out an open, '
                               'half set-up connection (no tunnel, no TLS) and the next request for that host is written to the proxy as it is', m.loc(h))
